@@ -34,7 +34,7 @@ type Program struct {
 	implCache map[*types.Named]types.Type
 	infos     map[string]*types.Info      // package path -> type info (repo packages)
 	localsLock map[string][]localDecl      // function key -> declared locals when the lock was written
-	aliasCache map[*ssa.Function]map[string]string
+	aliasCache map[*ssa.Function]map[string][]string
 	entryCache map[*ssa.Function]bool
 }
 
@@ -380,33 +380,72 @@ func (p *Program) declaredLocals(fn *ssa.Function) []localDecl {
 // was written) to the current names when the function's declarations differ
 // from the recorded ones only by renaming. Bindings are only a convenience:
 // every clause is still checked, so a wrong binding cannot make a proof pass.
-func (p *Program) renamedLocals(fn *ssa.Function) map[string]string {
+func (p *Program) renamedLocals(fn *ssa.Function) map[string][]string {
 	if m, ok := p.aliasCache[fn]; ok {
 		return m
 	}
 	if p.aliasCache == nil {
-		p.aliasCache = map[*ssa.Function]map[string]string{}
+		p.aliasCache = map[*ssa.Function]map[string][]string{}
 	}
-	var m map[string]string
+	var m map[string][]string
 	old := p.localsLock[p.funcKey(fn)]
 	cur := p.declaredLocals(fn)
-	if len(old) > 0 && len(old) == len(cur) {
-		ok := true
-		for i := range old {
-			if old[i].Type != cur[i].Type {
-				ok = false
+	if len(old) > 0 && len(cur) > 0 {
+		// align the two declaration lists (same type required; equal names preferred):
+		// declarations may also have been added or removed around the renamed ones
+		n, k := len(old), len(cur)
+		score := make([][]int, n+1)
+		for i := range score {
+			score[i] = make([]int, k+1)
+		}
+		for i := n - 1; i >= 0; i-- {
+			for j := k - 1; j >= 0; j-- {
+				best := score[i+1][j]
+				if score[i][j+1] > best {
+					best = score[i][j+1]
+				}
+				if old[i].Type == cur[j].Type {
+					w := 1
+					if old[i].Name == cur[j].Name {
+						w = 3
+					}
+					if score[i+1][j+1]+w > best {
+						best = score[i+1][j+1] + w
+					}
+				}
+				score[i][j] = best
 			}
 		}
-		if ok {
-			m = map[string]string{}
-			for i := range old {
-				if old[i].Name != cur[i].Name {
-					if prev, dup := m[old[i].Name]; dup && prev != cur[i].Name {
-						continue // shadowed names renamed differently: keep the first
-					}
-					m[old[i].Name] = cur[i].Name
+		present := map[string]bool{}
+		for _, c := range cur {
+			present[c.Name] = true
+		}
+		m = map[string][]string{}
+		for i, j := 0, 0; i < n && j < k; {
+			w := 0
+			if old[i].Type == cur[j].Type {
+				w = 1
+				if old[i].Name == cur[j].Name {
+					w = 3
 				}
 			}
+			switch {
+			case w > 0 && score[i][j] == score[i+1][j+1]+w:
+				if old[i].Name != cur[j].Name && !present[old[i].Name] {
+					// a name declared several times (shadowing, successive loops) may have been
+					// renamed differently per declaration: keep every candidate, in source order
+					m[old[i].Name] = append(m[old[i].Name], cur[j].Name)
+				}
+				i++
+				j++
+			case score[i][j] == score[i+1][j]:
+				i++
+			default:
+				j++
+			}
+		}
+		if len(m) == 0 {
+			m = nil
 		}
 	}
 	p.aliasCache[fn] = m
